@@ -4,7 +4,7 @@
     of the import path); G = cmd/go in GOPATH mode (nearest enclosing vendor directory with Go
     files, else GOPATH/src; relative imports against the importing directory; packages are
     directories). *)
-From Verif Require Import Lib.Str Imports.Model Imports.Proofs Imports.Load.
+From Verif Require Import Lib.Str Imports.Model Imports.Proofs Imports.Load Imports.Local.
 From Coq Require Import Relations.Relation_Operators.
 
 (** The property at full strength (false of the faithful model today, see the [_refuted]
@@ -99,6 +99,16 @@ Theorem C16_fs_agnostic_trees :
     y_resolve (tree_stat t1) gsrc root ip = y_resolve (tree_stat t2) gsrc root ip.
 Proof. exact fs_agnostic_trees. Qed.
 Print Assumptions C16_fs_agnostic_trees.
+
+(** pkgDir's answer is determined by the Stat answers to three questions per ancestor [A] of the
+    importing directory: is [A/vendor] a directory, is [A/vendor/<path>], is [effectivePkg(A, path)];
+    nothing else of the filesystem (or of its implementation) can matter *)
+Theorem C16_fs_local :
+  forall st1 st2 gsrc ip fuel root,
+    (forall p, In p (probes gsrc root ip) -> st1 p = st2 p) ->
+    y_pkg_dir st1 gsrc fuel root ip = y_pkg_dir st2 gsrc fuel root ip.
+Proof. exact pkg_dir_local. Qed.
+Print Assumptions C16_fs_local.
 
 (** ** Loading: once, terminating, no cycle *)
 
